@@ -106,7 +106,56 @@ def check(run):
     for l, e, o in zip(lines, exps, io):
         if o != "<crash>" and o.split(" ")[0] != e:
             oracle_fail.append((cfg, l[:200], e, o[:120]))
-    run.cov["rule"] = ("towers of [ / {\"a\": / 0x91 / 0x81 / array16,32 / map16,32 of depth L, L+1, L+2 for L in %s, closed and unclosed, kept and "
+    # --- stack consumed: a function of the nesting alone.  The same towers with k fillers in one gap (whitespace, comments,
+    # k more elements / members, a k-character string, k escapes; kept and discarded by a filter): the stack the
+    # deserializer uses (probed by the reader at every read) must not grow with k
+    impl_c = vlib.need_harness("doc_h", "11111")
+    stk_fail = 0
+    for hcfg, himpl in (("10001", impl_d), ("11111", impl_c)):
+        fillers = [("spaces", lambda k: b" " * k, b""), ("newlines", lambda k: b"\r\n" * k, b""),
+                   ("elements", lambda k: b"1," * k, b""), ("strings", lambda k: b'"",' * k, b""),
+                   ("long string", lambda k: b'"' + b"a" * k + b'",', b""), ("escapes", lambda k: b'"' + b"\\n" * k + b'",', b""),
+                   ("unicode escapes", lambda k: b'"' + b"\\u00e9" * (k // 4) + b'",', b""),
+                   ("nested empties", lambda k: b"[],{}," * (k // 2), b"")]
+        if hcfg[1] == "1":
+            fillers += [("block comments", lambda k: b"/**/" * k, b""), ("line comments", lambda k: b"//\n" * k, b""),
+                        ("comment with stars", lambda k: b"/*" + b"*" * k + b"*/", b"")]
+        slines, smeta = [], []
+        for L in (0, 1, 3, 10):
+            for flt in ("-", hx(b"false"), hx(b"[[true]]")):
+                for name, mk, _ in fillers:
+                    for k in (8, 3000, 20000 if not thorough else 100000):
+                        depth = max(L, 1)
+                        text = b"[" * depth + mk(k) + b"1" + b"]" * depth
+                        slines.append(f"STK J {max(L, 1)} {flt} {hx(text)}")
+                        smeta.append((hcfg, L, flt, name, k))
+        # MessagePack: wide arrays / maps / long strings at a fixed depth
+        for L in (1, 3, 10):
+            for k in (8, 3000, 20000):
+                body = b"\xdc" + k.to_bytes(2, "big") + b"\xc0" * k
+                slines.append(("STK M %d - %s" % (L, hx(b"\x91" * (L - 1) + body)))); smeta.append((hcfg, L, "-", "mp wide array", k))
+                body = b"\xde" + k.to_bytes(2, "big") + b"\xa1k\x01" * k
+                slines.append(("STK M %d - %s" % (L, hx(b"\x91" * (L - 1) + body)))); smeta.append((hcfg, L, "-", "mp wide map", k))
+                body = b"\xda" + k.to_bytes(2, "big") + b"s" * k
+                slines.append(("STK M %d - %s" % (L, hx(b"\x91" * (L - 1) + body)))); smeta.append((hcfg, L, "-", "mp long string", k))
+        outs, crash = vlib.run_sharded(himpl, slines, None, 900, ["CFG " + hcfg])
+        if crash:
+            run.violation(f"C15: library crashed while measuring stack use (cfg {hcfg}): {crash[:300]}",
+                          dict(kind="input", cfg=hcfg, harness_src="doc_h", lines=[crash.split("\n")[0].split(": ", 1)[-1][:20000]], observed=crash[-2000:]))
+        base = {}
+        for l, m, o in zip(slines, smeta, outs):
+            run.count(("stack",) + m)
+            if o == "<crash>":
+                continue
+            st = int(o.split("stack=")[1].split(" ")[0])
+            key = m[:4]
+            if m[4] == 8:
+                base[key] = st
+            elif key in base and st > base[key] + 1024:
+                stk_fail += 1
+                oracle_fail.append((hcfg, l[:4000], f"stack bounded by the nesting limit alone: {base[key]} bytes with 8 x {m[3]} in the gap (limit {m[1]})", f"{st} bytes with {m[4]} x {m[3]}: {o}"))
+    run.cov["rule"] = ("stack use probed at every read for towers at L in {0,1,3,10} with 8 / 3000 / 20000 fillers of 8-11 kinds in one gap (JSON, comments configuration included, kept and filtered; MessagePack wide arrays/maps/strings): must not grow with the filler count; " +
+                       "towers of [ / {\"a\": / 0x91 / 0x81 / array16,32 / map16,32 of depth L, L+1, L+2 for L in %s, closed and unclosed, kept and "
                        "filter-discarded, thousands of openers; random documents with limits around their depth; oracle: TooDeep exactly when depth > L, "
                        "at the (L+1)-th opener, nesting() <= L on Ok; distinct = distinct case line" % ("0..255" if thorough else str(Ls)))
     run.sample(dict(case=lines[0][:120]))
